@@ -7,6 +7,7 @@ network(profile) profiles:
   "wide"   - the widest structurally valid space (C13): all of the above anywhere, CPU-only and custom operators, odd ranks/dtypes/quantisation
 """
 import math
+import os
 
 ACT = {"NONE": 0, "RELU": 1, "RELU_N1_TO_1": 2, "RELU6": 3}
 EXACT_OPS = ["conv", "conv", "conv", "dw", "fc", "maxpool", "avgpool_valid", "add", "add", "sub", "mul", "relu", "relu6", "reshape", "concat", "pad", "quantize",
@@ -442,17 +443,25 @@ class NB:
     def mean(self, x):
         d, st = self.draw, self.st
         X = self.info(x)
-        if len(X["shape"]) != 4:
+        r = len(X["shape"])
+        if r not in (2, 3, 4):
             return self.unary(x, "RELU", same_q=True)
-        axes = d(st.sampled_from([[1, 2], [1, 2], [1], [2]]))
+        # height/width reductions mostly; also depth, batch (size 1), everything, negative and scalar axis spellings, lower ranks
+        menu = {4: [[1, 2], [1, 2], [1, 2], [1], [2], [3], [1, 2, 3], [0], [2, 3], [1, 3], [-1], [-2, -3], [2, 1]], 3: [[0, 1], [0], [1], [2], [1, 2], [-1]], 2: [[0], [1], [0, 1]]}[r]
+        axes = d(st.sampled_from(menu))
         keep = d(st.booleans())
+        norm = sorted(set(a % r for a in axes))
         so = list(X["shape"])
-        for a in axes:
+        for a in norm:
             so[a] = 1
         if not keep:
-            so = [v for i, v in enumerate(so) if i not in axes]
+            so = [v for i, v in enumerate(so) if i not in norm]
         o = self.out("mean", so, X["dtype"], self.quant(X["dtype"], (X["scale"], X["zp"])))
-        self.op("MEAN", [x, self.const_i32("axis", axes)], [o], "ReducerOptions", dict(KeepDims=keep), version=2)
+        if len(axes) == 1 and d(st.integers(0, 3)) == 0:
+            ax = self.t("axis", [], "int32", data=dict(values=[axes[0]]))  # scalar axis operand
+        else:
+            ax = self.const_i32("axis", axes)
+        self.op("MEAN", [x, ax], [o], "ReducerOptions", dict(KeepDims=keep), version=2)
         return o
 
     def resize(self, x, kind, factor=None):
@@ -664,6 +673,8 @@ def network(profile="exact", max_ops=6, dtypes=("int8", "int8", "int8", "uint8",
             n_ops = draw(st.integers(1, max_ops))
             approx_tail = draw(st.sampled_from(["avgpool_same", "logistic", "tanh", "hswish", "lrelu", "mean", "resize_nearest", "avgpool_same", "tanh", "tconv", "tconv", "resize_bilinear",
                                                     "exp", "log", "sqrt", "rsqrt", "gelu", "prelu", "prelu", "abs"]))
+            if os.environ.get("VERIF_FORCE_TAIL"):  # exploration aid (never set by a registered command): concentrate a run on one tail operator
+                approx_tail = os.environ["VERIF_FORCE_TAIL"]
         if profile == "exact16":  # exact-class operators whose 16-bit reference is pinned down (no ADD/SUB: their int16 reference depends on the pot_scale option)
             menu = ["conv", "conv", "conv", "dw", "fc", "maxpool", "avgpool_valid", "mul", "relu", "relu6", "reshape", "concat", "pad", "quantize", "sslice", "split",
                     "maximum", "minimum", "mul_const", "padconv", "add", "sub", "add_const", "lrelu", "lrelu", "abs"]
@@ -707,7 +718,7 @@ def network(profile="exact", max_ops=6, dtypes=("int8", "int8", "int8", "uint8",
                     kind = "reshape"
                 elif kind == "reshape":
                     kind = "conv"
-            if not r4 and kind in ("conv", "dw", "dw_same", "unsupported_conv", "maxpool", "avgpool_valid", "avgpool_same", "padconv", "tconv", "resize_nearest", "resize_bilinear", "mean"):
+            if not r4 and kind in ("conv", "dw", "dw_same", "unsupported_conv", "maxpool", "avgpool_valid", "avgpool_same", "padconv", "tconv", "resize_nearest", "resize_bilinear") or (kind == "mean" and len(X["shape"]) not in (2, 3, 4)):
                 kind = draw(st.sampled_from(["fc", "add_const", "reshape", "relu", "mul_const"]))
             if X["dtype"] == "int16" and kind in ("avgpool_same", "resize_bilinear", "hswish", "tconv", "mean", "softmax", "logistic", "tanh"):
                 kind = "relu"
